@@ -2,6 +2,7 @@
   C10 — crossable loop/path constraint admits exactly single self-crossing trails.
 -/
 import CspuzModel.Proofs.C10
+import CspuzModel.Proofs.C10Gen
 namespace Cspuz.C10
 open Cspuz Cspuz.Spec
 
@@ -74,5 +75,162 @@ example : ∀ prim : Bool, ∃ p ps cr, connectedCrossable (Frame.fresh 0 1 1) t
     have hx : x = 0 ∨ x = 1 := by omega
     subst hy
     rcases hx with rfl | rfl <;> simp [segActive, truthAt, Frame.fresh, bvars, Cspuz.Proofs.eval_bvar]
+
+/-! ## The general statement: any well-formed frame of Boolean expressions, any `base`
+
+In real use a `BoolGridFrame` is rarely the solver's first allocation: other variables come before it
+(offset `b0 > 0`) and after it, the frame may be `inner.dual()` (the same variables, arrays swapped) or
+hold arbitrary Boolean expressions (e.g. negated variables).  The statements below quantify over
+EVERY frame `f` whose two arrays have the shapes of a `BoolGridFrame` (`FrameWF f`) and whose entries
+are well-typed Boolean expressions over the caller's variables `0 … base-1` (`BoolArgs base …`, as in
+C04/C06); the generator's auxiliary variables are `base, base+1, …`. -/
+
+/-- GENERAL statement (both modes; `prim`: native / auxiliary connectivity route). -/
+def statement_general (prim : Bool) : Prop :=
+  ∀ (f : Frame) (base : Nat) (singleCycle : Bool) (p : Prog) (ps cr : List Expr) (σ : Asg),
+    FrameWF f →
+    BoolArgs base (f.horizontal.data ++ f.vertical.data) →
+    connectedCrossable f singleCycle prim base = .ok (p, ps, cr) →
+    let H := f.height
+    let W := f.width
+    let act := segActive f σ
+    (Realizable base p σ ↔ CrossableOK H W act singleCycle) ∧
+    (∀ σ', AgreeBelow base σ σ' → SatFrag base p σ' →
+      ∀ y x, y ≤ H → x ≤ W →
+        σ'.b (base + y * (W + 1) + x) = decide (0 < pointDegree H W act y x) ∧
+        σ'.b (base + (H + 1) * (W + 1) + y * (W + 1) + x) = decide (pointDegree H W act y x = 4)) ∧
+    ps = (List.range ((H + 1) * (W + 1))).map (fun i => Expr.bvar (base + i)) ∧
+    cr = (List.range ((H + 1) * (W + 1))).map (fun i => Expr.bvar (base + (H + 1) * (W + 1) + i))
+
+theorem C10_general_aux : statement_general false := Cspuz.Proofs.C10Gen.exact_gen false
+theorem C10_general_prim : statement_general true := Cspuz.Proofs.C10Gen.exact_gen true
+
+/-- The general statements are not vacuous: the generator succeeds on every well-formed frame of
+Boolean expressions over the caller's variables (all sizes, every `base`, both modes, both routes). -/
+def statement_general_total : Prop :=
+  ∀ (f : Frame) (base : Nat) (singleCycle prim : Bool),
+    FrameWF f → BoolArgs base (f.horizontal.data ++ f.vertical.data) →
+    ∃ r, connectedCrossable f singleCycle prim base = .ok r
+
+theorem C10_general_total : statement_general_total := Cspuz.Proofs.C10Gen.total
+
+/-- The hypotheses hold for `BoolGridFrame(solver, H, W)` allocated after `b0` other variables, with
+the auxiliary variables allocated at any later `base` (more caller variables may lie in between). -/
+def statement_fresh_ok : Prop :=
+  ∀ (b0 H W base : Nat), b0 + Frame.numVars H W ≤ base →
+    FrameWF (Frame.fresh b0 H W) ∧
+    BoolArgs base ((Frame.fresh b0 H W).horizontal.data ++ (Frame.fresh b0 H W).vertical.data)
+
+theorem C10_fresh_ok : statement_fresh_ok :=
+  fun b0 H W base h => ⟨Cspuz.Proofs.C10Gen.fresh_wf b0 H W, Cspuz.Proofs.C10Gen.fresh_boolArgs b0 H W base h⟩
+
+/-- The general statement contains the one for the solver's first allocation. -/
+theorem C10_general_implies_exact (prim : Bool) : statement_general prim → statement prim := by
+  intro h H W base sc p ps cr σ hb hp
+  exact h (Frame.fresh 0 H W) base sc p ps cr σ (C10_fresh_ok 0 H W base (by omega)).1
+    (C10_fresh_ok 0 H W base (by omega)).2 hp
+
+/-! ### Non-vacuity of the general statement -/
+
+/-- A frame allocated at offset 3 (segments h(0,0)=3, h(1,0)=4, v(0,0)=5, v(0,1)=6), two more caller
+variables 7, 8 after it, auxiliary variables from `base = 9`: the hypotheses hold and the generator
+succeeds on both routes and in both modes. -/
+example : FrameWF (Frame.fresh 3 1 1) ∧
+    BoolArgs (3 + 4 + 2) ((Frame.fresh 3 1 1).horizontal.data ++ (Frame.fresh 3 1 1).vertical.data) ∧
+    (∃ r, connectedCrossable (Frame.fresh 3 1 1) true false (3 + 4 + 2) = .ok r) ∧
+    (∃ r, connectedCrossable (Frame.fresh 3 1 1) true true (3 + 4 + 2) = .ok r) ∧
+    (∃ r, connectedCrossable (Frame.fresh 3 1 1) false false (3 + 4 + 2) = .ok r) ∧
+    (∃ r, connectedCrossable (Frame.fresh 3 1 1) false true (3 + 4 + 2) = .ok r) :=
+  ⟨(C10_fresh_ok 3 1 1 9 (by decide)).1, (C10_fresh_ok 3 1 1 9 (by decide)).2,
+    ⟨_, rfl⟩, ⟨_, rfl⟩, ⟨_, rfl⟩, ⟨_, rfl⟩⟩
+
+/-- A 1 × 1 frame whose entries are NEGATED variables (`~b3, ~b4` horizontal, `~b5, ~b6` vertical). -/
+def negFrame11 : Frame :=
+  { height := 1, width := 1,
+    horizontal := ⟨2, 1, [.node .not [.bvar 3], .node .not [.bvar 4]]⟩,
+    vertical := ⟨1, 2, [.node .not [.bvar 5], .node .not [.bvar 6]]⟩ }
+
+theorem negFrame11_ok : FrameWF negFrame11 ∧
+    BoolArgs 9 (negFrame11.horizontal.data ++ negFrame11.vertical.data) := by
+  refine ⟨⟨rfl, rfl, rfl, rfl, rfl, rfl⟩, ?_⟩
+  intro e he
+  simp only [negFrame11, List.cons_append, List.nil_append, List.mem_cons, List.not_mem_nil, or_false] at he
+  rcases he with rfl | rfl | rfl | rfl <;> exact ⟨rfl, rfl⟩
+
+example : (∃ r, connectedCrossable negFrame11 true false 9 = .ok r) ∧
+    (∃ r, connectedCrossable negFrame11 true true 9 = .ok r) ∧
+    (∃ r, connectedCrossable negFrame11 false false 9 = .ok r) ∧
+    (∃ r, connectedCrossable negFrame11 false true 9 = .ok r) :=
+  ⟨⟨_, rfl⟩, ⟨_, rfl⟩, ⟨_, rfl⟩, ⟨_, rfl⟩⟩
+
+/-- `inner.dual()` for the inner frame of a 2 × 2 board allocated at offset 3: the same variables with
+the two arrays swapped (horizontal = `[b5, b6]`, vertical = `[b3, b4]`) — also covered. -/
+example : FrameWF (InnerFrame.fresh 3 2 2).dual ∧
+    BoolArgs 9 ((InnerFrame.fresh 3 2 2).dual.horizontal.data ++ (InnerFrame.fresh 3 2 2).dual.vertical.data) ∧
+    (∃ r, connectedCrossable (InnerFrame.fresh 3 2 2).dual false false 9 = .ok r) := by
+  refine ⟨⟨rfl, rfl, rfl, rfl, rfl, rfl⟩, ?_, ⟨_, rfl⟩⟩
+  intro e he
+  change e ∈ [Expr.bvar 5, .bvar 6, .bvar 3, .bvar 4] at he
+  simp only [List.mem_cons, List.not_mem_nil, or_false] at he
+  rcases he with rfl | rfl | rfl | rfl <;> exact ⟨rfl, rfl⟩
+
+/-- Hence (by `C10_general_aux` / `C10_general_prim`): with ALL variables false the four negated
+entries are all active, the unit square is one closed strand, and the emitted constraints are
+satisfiable — on both routes. -/
+example : ∀ prim : Bool, ∃ p ps cr, connectedCrossable negFrame11 true prim 9 = .ok (p, ps, cr) ∧
+    Realizable 9 p { b := fun _ => false, i := fun _ => 0 } := by
+  intro prim
+  have hex : ∃ r, connectedCrossable negFrame11 true prim 9 = .ok r := by
+    cases prim <;> exact ⟨_, rfl⟩
+  obtain ⟨⟨p, ps, cr⟩, hr⟩ := hex
+  refine ⟨p, ps, cr, hr, ?_⟩
+  have hst : statement_general prim := by
+    cases prim
+    · exact C10_general_aux
+    · exact C10_general_prim
+  refine ((hst negFrame11 9 true p ps cr _ negFrame11_ok.1 negFrame11_ok.2 hr).1).2 (unitSquare_ok _ ?_)
+  intro s hs
+  cases s with
+  | h y x =>
+    obtain ⟨h1, h2⟩ := hs
+    have hx : x = 0 := by omega
+    have hy : y = 0 ∨ y = 1 := by omega
+    subst hx
+    rcases hy with rfl | rfl <;> rfl
+  | v y x =>
+    obtain ⟨h1, h2⟩ := hs
+    have hy : y = 0 := by omega
+    have hx : x = 0 ∨ x = 1 := by omega
+    subst hy
+    rcases hx with rfl | rfl <;> rfl
+
+/-- The same for the frame allocated at offset 3 (`base = 9`) with all variables true. -/
+example : ∀ prim : Bool, ∃ p ps cr, connectedCrossable (Frame.fresh 3 1 1) true prim 9 = .ok (p, ps, cr) ∧
+    Realizable 9 p { b := fun _ => true, i := fun _ => 0 } := by
+  intro prim
+  have hex : ∃ r, connectedCrossable (Frame.fresh 3 1 1) true prim 9 = .ok r := by
+    cases prim <;> exact ⟨_, rfl⟩
+  obtain ⟨⟨p, ps, cr⟩, hr⟩ := hex
+  refine ⟨p, ps, cr, hr, ?_⟩
+  have hst : statement_general prim := by
+    cases prim
+    · exact C10_general_aux
+    · exact C10_general_prim
+  refine ((hst (Frame.fresh 3 1 1) 9 true p ps cr _ (C10_fresh_ok 3 1 1 9 (by decide)).1
+    (C10_fresh_ok 3 1 1 9 (by decide)).2 hr).1).2 (unitSquare_ok _ ?_)
+  intro s hs
+  cases s with
+  | h y x =>
+    obtain ⟨h1, h2⟩ := hs
+    have hx : x = 0 := by omega
+    have hy : y = 0 ∨ y = 1 := by omega
+    subst hx
+    rcases hy with rfl | rfl <;> rfl
+  | v y x =>
+    obtain ⟨h1, h2⟩ := hs
+    have hy : y = 0 := by omega
+    have hx : x = 0 ∨ x = 1 := by omega
+    subst hy
+    rcases hx with rfl | rfl <;> rfl
 
 end Cspuz.C10
